@@ -168,3 +168,132 @@ func genWire(t *rapid.T) wireCase {
 	return wireCase{Case: cs, Path: rapid.SampledFrom([]string{"broadcast", "broadcast", "udp", "tcp"}).Draw(t, "path"), Debug: rapid.Bool().Draw(t, "debug"),
 		TZ: gen.DeviceTZ(t, "tz"), Fixed: rapid.IntRange(0, 3).Draw(t, "fixed") == 0}
 }
+
+// identical calls made at the same time: each call puts its OWN request on the wire (N calls - N requests), on every path,
+// with bind port 0 or a fixed bind port (where the calls take turns)
+type sameCase struct {
+	Case  api.Case `json:"case"`
+	Path  string   `json:"path"`
+	N     int      `json:"n"`
+	Fixed bool     `json:"fixed_bind_port,omitempty"`
+	Debug bool     `json:"debug,omitempty"`
+}
+
+func runSame(c sameCase, scale int) (*rp.Fail, bool) {
+	f := farm.New()
+	defer f.Close()
+	answer := func(r farm.Received) []farm.Action { return []farm.Action{{Data: wireReply(r.Data)}} }
+	ip := [4]byte{127, 0, 4, 3}
+	var u *farm.UDP
+	var tc *farm.TCP
+	for try := 0; try < 20 && (u == nil || tc == nil); try++ {
+		port, err := farm.FreePort(ip)
+		if err != nil {
+			break
+		}
+		if u, err = f.UDP(ip, port, farm.Script(answer)); err != nil {
+			u = nil
+			continue
+		}
+		if tc, err = f.TCP(ip, port, farm.ScriptTCP(answer)); err != nil {
+			u.Close()
+			u, tc = nil, nil
+		}
+	}
+	if u == nil || tc == nil {
+		return nil, true
+	}
+	discovery := c.Case.Call.Op == "GetDevices"
+	cfg := hook.ClientCfg{TimeoutMs: 150 * scale, BindIP: [4]byte{127, 0, 0, 1}, Debug: c.Debug, HasBroadcast: true, BroadcastIP: ip, BroadcastPort: u.Addr.Port()}
+	if c.Fixed {
+		port, err := farm.FreePort(cfg.BindIP)
+		if err != nil {
+			return nil, true
+		}
+		cfg.BindPort = port
+	}
+	path := c.Path
+	if discovery {
+		path = "broadcast"
+	}
+	switch path {
+	case "udp":
+		cfg.Devices = []hook.DeviceCfg{{Name: "w", Serial: c.Case.Call.Serial, HasAddr: true, IP: ip, Port: u.Addr.Port(), Protocol: "udp"}}
+	case "tcp":
+		cfg.Devices = []hook.DeviceCfg{{Name: "w", Serial: c.Case.Call.Serial, HasAddr: true, IP: ip, Port: u.Addr.Port(), Protocol: "tcp"}}
+	}
+	client := hook.Real(cfg)
+	start := make(chan struct{})
+	done := make(chan any, c.N)
+	for i := 0; i < c.N; i++ {
+		go func() {
+			<-start
+			if discovery {
+				func() {
+					defer func() { done <- recover() }()
+					client.GetDevices()
+				}()
+				return
+			}
+			done <- api.Invoke(client, c.Case).Panic
+		}()
+	}
+	close(start)
+	for i := 0; i < c.N; i++ {
+		select {
+		case p := <-done:
+			if p != nil {
+				return rp.Failf("wire/panic", "%s panicked: %v", c.Case.Call.Op, p), false
+			}
+		case <-time.After(time.Duration(c.N*150*scale)*time.Millisecond + 10*time.Second):
+			return rp.Failf("wire/"+path+"/hang", "%d concurrent %s calls have not all returned", c.N, c.Case.Call.Op), false
+		}
+	}
+	time.Sleep(10 * time.Millisecond)
+	want := spec.Request(c.Case.Call)
+	var got [][]byte
+	for _, r := range u.Log() {
+		got = append(got, r.Data)
+	}
+	for _, r := range tc.Log() {
+		got = append(got, r.Data)
+	}
+	if len(got) != c.N {
+		return rp.Failf("wire/"+path+"/send-count/concurrent-identical-calls", "%d identical %s calls made at the same time over %s (fixed bind port: %v) put %d request(s) on the wire; every call sends its own request",
+			c.N, c.Case.Call.Op, path, c.Fixed, len(got)), false
+	}
+	for _, g := range got {
+		if !bytes.Equal(g, want) {
+			return rp.Failf("wire/"+path+"/request-bytes", "%s over %s: the controller received %x, the protocol encoding is %x", c.Case.Call.Op, path, g, want), false
+		}
+	}
+	return nil, false
+}
+
+func checkSame(c sameCase) *rp.Fail {
+	ev.Case("wire/concurrent-identical-calls/"+c.Path, true, fmt.Sprintf("%+v", c))
+	f, skipped := runSame(c, 1)
+	if skipped {
+		ev.Excluded("socket scenario skipped (no free port)", 1)
+		return nil
+	}
+	if f != nil {
+		if f2, sk := runSame(c, 4); f2 == nil && !sk {
+			ev.Inconclusive(1)
+			return nil
+		}
+	}
+	return f
+}
+
+func genSame(t *rapid.T) sameCase {
+	op := rapid.SampledFrom([]string{"GetDevices", "GetDevices", "GetTime", "GetStatus", "OpenDoor", "GetCards", "GetDevice"}).Draw(t, "op")
+	cs := gen.Call(t, op)
+	c := sameCase{Case: cs, Path: rapid.SampledFrom([]string{"broadcast", "udp", "tcp"}).Draw(t, "path"), N: rapid.IntRange(2, 4).Draw(t, "n"), Fixed: rapid.Bool().Draw(t, "fixed"), Debug: gen.Debug(t, "debug")}
+	if c.Path == "tcp" && op != "GetDevices" {
+		// a second TCP connection from one fixed local port to the same controller is refused by the operating system while
+		// the first is in TIME_WAIT (before the controller is asked): not generated
+		c.Fixed = false
+	}
+	return c
+}
